@@ -58,6 +58,9 @@ def excluded(text, ctx=None):
         hit.append("</p> or </br> in foreign content (break-out rule added to the standard in 2017)")
     if ("frameset" in names or "colgroup" in names) and (_MIXED_TEXT.search(_TAGS_ONLY.sub("\x01", text)) or "&" in text):
         hit.append("frameset/colgroup + a text run mixing whitespace and other characters (html5lib decides per run, the standard per character)")
+    if "<![cdata[" in low and "\0" in text:
+        hit.append("U+0000 inside a CDATA section: html5lib's tokenizer replaces it; the standard emits it and lets tree "
+                   "construction decide (dropped at an integration point, U+FFFD in foreign content)")
     if ctx and ctx[1].lower() == "noscript":
         hit.append("html5lib tokenizes a noscript fragment context as RAWTEXT whatever the scripting flag")
     return hit
